@@ -280,6 +280,19 @@ fn exec(base: Base, binds: bool, seq: &[Atk], render: bool) -> RunOutput {
                             pv(&mut cx.viol, "bindrequest.settled-by-stray-frame", format!("{}: the pending bind request on flow {id} changed from {before:?} to {now:?}; only Finish or Reset answer a Bind", atk_str(a)));
                         }
                     }
+                    RFrame::Finish { .. } if base == Base::Requested && before.as_ref().is_some_and(|b| b.kind == 0) => {
+                        // the answer to a Connect is Acknowledge or Reset; a Finish (a stray one of an older flow on the id,
+                        // for instance) is no acceptance: the request is rejected like by a Reset, i.e. retried on a fresh id
+                        // or failed with FlowIdRejected -- it must not report the whole connection as closed
+                        let obs = cx.w.obs.borrow();
+                        let err = obs.events.iter().find_map(|e| if let crate::apps::Ev::OpenErr { tag, err, .. } = e { (*tag == VT).then(|| err.clone()) } else { None });
+                        drop(obs);
+                        if let Some(e) = err {
+                            if e.contains("Closed") && !cx.w.task_done(0) {
+                                pv(&mut cx.viol, "requested.finish-reported-as-closed", format!("{}: the pending stream request failed with {e} although the connection is up (frames sent in reply: {got:?})", atk_str(a)));
+                            }
+                        }
+                    }
                     RFrame::Connect { .. } if id == 0 || before.is_some() => {
                         // R5: Connect with id 0 or an id in use => Reset, existing flow untouched
                         if resets_on(&got, id) != 1 || got.len() != 1 {
